@@ -386,8 +386,19 @@ func (s *backendSuite) do(t []string) string {
 	case "iterfault":
 		// iterfault <n>: the next iterator the engine hands out fails its n-th Next call once with a transient
 		// (non-EOF) error; the scanner's worker retries its partition after a backoff
+		// iterfault <n> from=<hex>|notfrom=<hex>: persistent — every iterator whose start key is / is not <hex>
+		// fails its n-th Next (the worker of that partition exhausts its retries); `iterfault 0` clears it
 		s.c.mu.Lock()
-		s.c.iterFault = atoi(pos[1])
+		if v, ok := opts["from"]; ok {
+			s.c.iterFaultPersist, s.c.iterFaultKey, s.c.iterFaultEq = atoi(pos[1]), unhx(v), true
+		} else if v, ok := opts["notfrom"]; ok {
+			s.c.iterFaultPersist, s.c.iterFaultKey, s.c.iterFaultEq = atoi(pos[1]), unhx(v), false
+		} else {
+			s.c.iterFault = atoi(pos[1])
+			if atoi(pos[1]) == 0 {
+				s.c.iterFaultPersist = 0
+			}
+		}
 		s.c.mu.Unlock()
 		return "iterfault ok"
 	case "lowrev":
